@@ -402,9 +402,9 @@ def check(tier, seed):
             groups = make_groups(c.rng, 300, 14, False, (8, 3)) + make_groups(c.rng, 100, 30, False, (5, 3)) + make_groups(c.rng, 40, 30, True, (5, 3))
             evaluate(c, exe, groups, refok, tier)
         else:
-            groups = make_groups(c.rng, 700, 14, False, (8, 4)) + make_groups(c.rng, 300, 40, False, (6, 4))
+            groups = make_groups(c.rng, 500, 14, False, (8, 4)) + make_groups(c.rng, 220, 40, False, (6, 4))
             evaluate(c, exe, groups, refok, tier)
-            groups = make_groups(c.rng, 60, 100, True, (5, 3)) + make_groups(c.rng, 36, 300, True, (4, 2))
+            groups = make_groups(c.rng, 44, 100, True, (5, 3)) + make_groups(c.rng, 26, 300, True, (4, 2))
             evaluate(c, exe, groups, refok, tier)
     if not refok:
         c.notes.append("verified reference optimum (RefModel optw) not available in this run")
